@@ -222,10 +222,14 @@ func samplerReproScenario() engine.Scenario {
 // multiparty CRPs: equal CRS keys => equal CRPs, and the CRP is what the specification sampler draws from the CRS bytes
 
 func crpParams() rlwe.Parameters {
+	if p, ok := rlweCache["crp"]; ok {
+		return p // parameters are immutable
+	}
 	p, err := rlwe.NewParametersFromLiteral(rlwe.ParametersLiteral{LogN: 4, Q: mixedChain().mod, P: pChain(), NTTFlag: true})
 	if err != nil {
 		panic(err)
 	}
+	rlweCache["crp"] = p
 	return p
 }
 
